@@ -311,6 +311,8 @@ type seqState struct {
 	pos   int  // last position known to the client
 	first bool // no event delivered yet since hand-over
 	other int  // index into Svc.Events up to which non-stream events are matched
+	odd   int  // Relaxed: position of the last custom event delivered (0: none yet)
+	even  int  // Relaxed: position of the last state delivered (snapshot or event)
 }
 
 // sameEvent reports whether a delivered state event can be the emitted one:
@@ -404,7 +406,7 @@ func (m *SeqMon) Step(w *World, _ string) {
 			pos := 0
 			switch ev.Event {
 			case "+hand":
-				m.per[id] = &seqState{res: ev.Snap, pos: 2 * ev.Snap.Snap0, first: true}
+				m.per[id] = &seqState{res: ev.Snap, pos: 2 * ev.Snap.Snap0, even: 2 * ev.Snap.Snap0, first: true}
 				continue
 			case "+drop", "delete", "unsubscribe":
 				delete(m.per, id)
@@ -439,6 +441,33 @@ func (m *SeqMon) Step(w *World, _ string) {
 				m.otherEvent(w, c, ev, st)
 			}
 			if pos == 0 || !ev.Held || st == nil {
+				continue
+			}
+			if m.Relaxed {
+				// State events may be dropped inside a reset or query window and
+				// superseded by a derived event that comes later (the property's
+				// exception). Custom events are never superseded: they keep their
+				// order, each exactly once; a state event is never delivered twice.
+				if pos%2 == 1 {
+					switch {
+					case st.odd == 0 && pos != st.pos+1 && pos != st.pos+3:
+						w.Fail("C03", "gap-at-handover", "%s: first custom event of %s after hand-over has position %d but the snapshot stands for %d", c.Label, ev.RID, pos, st.pos)
+					case st.odd != 0 && pos <= st.odd:
+						w.Fail("C03", "duplicate-or-reordered", "%s: custom event at stream position %d of %s delivered when the client already had the one at %d", c.Label, pos, ev.RID, st.odd)
+					case st.odd != 0 && pos != st.odd+2:
+						w.Fail("C03", "gap", "%s: custom event at stream position %d of %s delivered right after the one at %d", c.Label, pos, ev.RID, st.odd)
+					}
+					st.odd = pos
+				} else {
+					if pos <= st.even {
+						w.Fail("C03", "duplicate-or-reordered", "%s: state of stream position %d of %s delivered when the client already had that of %d", c.Label, pos, ev.RID, st.even)
+					}
+					st.even = pos
+				}
+				if pos > st.pos {
+					st.pos = pos
+				}
+				st.first = false
 				continue
 			}
 			switch {
